@@ -14,7 +14,7 @@ mod vk_copied {
 
     fn data() -> [V; N] { [V(kani::any()), V(kani::any()), V(kani::any())] }
 
-    // @harness name=copied_slice_pulls props=C13 kind=bounded bound="source length <= 3; counter value and chunk size over the full usize domain"
+    // @harness name=copied_slice_pulls props=C13,C01,C02,C04 kind=bounded bound="source length <= 3; counter value and chunk size over the full usize domain"
     #[kani::proof]
     #[kani::unwind(6)]
     fn copied_slice_pulls() {
@@ -74,6 +74,57 @@ mod vk_copied {
         }
         assert!(x.counter().current() == y.counter().current(), "[C13 same-state] the adaptor leaves the iterator in the same state as the underlying operation");
         assert!(d == copy, "[C13 source-untouched] the source elements are neither modified nor moved");
+    }
+
+    // the adaptor under interference: every value the shared counter returns is arbitrary (other threads act between any two of
+    // the adaptor's steps), so whatever the adaptor reports must be derived from its own single fetch_add, never from a separate read
+    // @harness name=copied_slice_havoc props=C13,C01,C02,C03,C04 kind=bounded bound="source length <= 3; every counter value and the chunk size over the full usize domain"
+    #[kani::proof]
+    #[kani::unwind(6)]
+    #[kani::stub(crate::iter::atomic_counter::AtomicCounter::fetch_and_add, c_faa)]
+    #[kani::stub(crate::iter::atomic_counter::AtomicCounter::fetch_and_increment, c_inc)]
+    #[kani::stub(crate::iter::atomic_counter::AtomicCounter::current, c_cur)]
+    #[kani::stub(crate::iter::atomic_counter::AtomicCounter::store, c_store)]
+    fn copied_slice_havoc() {
+        use crate::verif_common::*;
+        let d = data();
+        let len: usize = kani::any();
+        kani::assume(len <= N);
+        let y = ConIterOfSlice::new(&d[..len]).copied();
+        let op: u8 = kani::any();
+        kani::assume(op < 4);
+        if op < 2 {
+            let r = if op == 0 { y.next_id_and_value().map(|x| (x.idx, x.value)) } else { y.next().map(|v| (0usize, v)) };
+            assert!(n_writes() == 1 && first_write().kind == 1 && first_write().arg == 1, "[C01 C04 C13 adaptor-one-rmw] a single pull through the adaptor performs exactly one fetch_add(1) on the underlying counter");
+            let b = first_write().ret;
+            kani::cover!(r.is_some(), "delivering");
+            match r {
+                Some((i, v)) => { assert!(b < len && (op == 1 || i == b), "[C01 C02 C13 adaptor-idx] the adaptor delivers the position its fetch_add reserved"); assert!(v == d[b], "[C01 C02 C13 adaptor-value] ... and a copy of the element at that position"); }
+                None => assert!(b >= len, "[C01 C05 C13 adaptor-none] None only past the end"),
+            }
+        } else {
+            let n: usize = kani::any();
+            kani::assume(op == 2 || n > 0);
+            let mut buf = y.buffered_iter(if op == 3 { n } else { 1 });
+            let k: usize = kani::any();
+            let r = if op == 3 { buf.next().map(|c| (c.begin_idx, c.values.len(), { let mut v = c.values; v.nth(k) })) }
+                    else { y.next_chunk(n).map(|c| (c.begin_idx, c.values.len(), { let mut v = c.values; v.nth(k) })) };
+            assert!(n_writes() == 1 && first_write().kind == 1 && first_write().arg == n, "[C01 C04 C13 adaptor-one-rmw] a chunk pull through the adaptor performs exactly one fetch_add(n) on the underlying counter");
+            let b = first_write().ret;
+            let en = clamp_end(b, n, len);
+            kani::cover!(r.is_some() && op == 3, "buffered chunk");
+            kani::cover!(r.is_some() && op == 2 && en - b < n, "short one-shot chunk");
+            match r {
+                Some((begin, l, p)) => {
+                    assert!(b < en && begin == b, "[C02 C03 C13 adaptor-begin] the chunk's begin index is the position its own fetch_add reserved");
+                    if let Some(q) = p { assert!(b + k < len && q == d[b + k], "[C01 C02 C03 C13 adaptor-contents] the k-th chunk element is a copy of element b + k"); }
+                    assert!(l == en - b, "[C01 C03 C13 adaptor-exact-len] chunk length is min(n, len - b)");
+                    if k < l { assert!(p.is_some(), "[C03 C13 adaptor-exact-len] the chunk yields every element it announced"); }
+                    else { assert!(p.is_none(), "[C03 C13 adaptor-exact-len] the chunk yields exactly the announced number of elements"); }
+                }
+                None => assert!(b == en, "[C01 C03 C05 C13 adaptor-none] None only when nothing is left"),
+            }
+        }
     }
 
     // @harness name=copied_slice_queries props=C13,C06 kind=bounded bound="source length <= 3; counter value over the full usize domain"
